@@ -89,8 +89,18 @@ def gen_game(rng, g, addr):
     known = sorted(str(h) for h in st.known_hosts) if st else ctrl
     src = rng.choice(ctrl) if ctrl and rng.random() < 0.9 else "1.2.3.4"
     r = rng.random()
+    if rng.random() < 0.06:
+        # texts that contain the letters of the end-of-message marker, quotes and non-ASCII characters: legal field values
+        if rng.random() < 0.5:
+            return game_msg("ExfiltrateData", source_host=ip(src), target_host=ip(rng.choice(ctrl or known)),
+                            data={"owner": rng.choice(["GEOFF", "EOF", 'a"b']), "id": rng.choice(["EOFY_report", "xEOF", "notes \u00e9"]), "size": 0, "type": ""})
+        return game_msg("ExploitService", source_host=ip(src), target_host=ip(rng.choice(known)),
+                        target_service={"name": rng.choice(["GEOFence daemon", "EOF", "ssh"]), "type": "passive", "version": "EOF1.0", "is_local": False})
     if r < 0.3:
         n = rng.choice(NETS)
+        if st and st.known_networks and rng.random() < 0.5:
+            nn = sorted((x.ip, x.mask) for x in st.known_networks)
+            n = nn[rng.randrange(len(nn))]
         return game_msg("ScanNetwork", source_host=ip(src), target_network={"ip": n[0], "mask": n[1]})
     if r < 0.5:
         return game_msg("FindServices", source_host=ip(src), target_host=ip(rng.choice(known)))
@@ -109,8 +119,17 @@ def gen_game(rng, g, addr):
 
 
 def gen_invalid_game(rng):
-    c = rng.randrange(6)
-    if c == 0:
+    c = rng.randrange(9)
+    if c == 6:
+        t = msg("ScanNetwork")                                   # several required parameters missing at once
+        at = "ScanNetwork"
+    elif c == 7:
+        t = msg("BlockIP")
+        at = "BlockIP"
+    elif c == 8:
+        t = msg("ExfiltrateData", data={"owner": "a", "id": "b", "size": 0, "type": ""})
+        at = "ExfiltrateData"
+    elif c == 0:
         t = msg("ScanNetwork", source_host=ip("192.168.2.2"))
         at = "ScanNetwork"
     elif c == 1:
@@ -141,7 +160,11 @@ GARBAGE = ["   ", "not json", "{", "[1,2]", "null", "{}", '{"action_type": "Acti
            '{"action_type": "NotAnActionType.ResetGame", "parameters": {}}', '{"action_type": "my.ActionType.QuitGame", "parameters": {}}',
            '{"action_type": "ActionType.ActionType.ScanNetwork", "parameters": {"source_host": {"ip": "192.168.2.2"}, "target_network": {"ip": "192.168.1.0", "mask": 24}}}',
            '{"action_type": "xActionType.JoinGame", "parameters": {"agent_info": {"name": "x", "role": "Attacker"}}}',
-           '{"action_type": "scannetwork", "parameters": {}}', " \n", "\t"]
+           '{"action_type": "scannetwork", "parameters": {}}', " \n", "\t",
+           # addresses that decode (ipaddress accepts numbers) but are not text: refused as bad requests
+           '{"action_type": "ActionType.FindData", "parameters": {"source_host": {"ip": 3232235777}, "target_host": {"ip": 3232235777}}}',
+           '{"action_type": "ActionType.FindServices", "parameters": {"source_host": {"ip": "192.168.2.2"}, "target_host": {"ip": true}}}',
+           '{"action_type": "ActionType.BlockIP", "parameters": {"source_host": {"ip": "192.168.2.2"}, "target_host": {"ip": "192.168.2.2"}, "blocked_host": {"ip": 16843009}}}']
 
 
 # roles that are not allowed: unknown names and values that are not even text (a JSON list, object, number, null, boolean)
@@ -290,9 +313,61 @@ def directed_config(rng, required, max_steps, goal_at_once=False, defender=False
 def directed(rng, k):
     """Run the k-th directed scenario; returns (Session, cfg, draw)."""
     kinds = ["eof", "readerr", "quit", "undecodable"]
-    variant = (k // 13) % 2
-    k = k % 13
-    if k == 12:
+    variant = (k // 15) % 2
+    k = k % 15
+    if k == 14:
+        # a goal that lists two data for one host: it is reached when BOTH are there, whatever the order of delivery
+        # (variant 0: the last-listed datum is delivered first); before that the episode goes on
+        cfg, draw = directed_config(rng, 1, 12)
+        A = cfg["coordinator"]["agents"]["Attacker"]
+        g0 = copy.deepcopy(nsgenv.EMPTY_PART)
+        if variant == 0:
+            g0["known_data"] = {"213.47.23.195": [["User1", "DataFromServer1"], ["User2", "Data2FromServer1"]]}
+        else:
+            g0["known_data"] = {"192.168.1.2": [["User1", "DataFromServer1"]]}      # the agent will know MORE than the goal lists there
+        A["goal"] = dict(g0, description="goal", is_any_part_of_goal_random=False)
+        S = CR.Session(cfg, draw=draw)
+        a = ("10.2.14.1", 1)
+        S.connect(a); S.settle()
+        _join(S, a, "a", "Attacker"); S.settle()
+        _scan(S, a); S.settle()
+        t, d = game_msg("FindServices", source_host=ip("192.168.2.2"), target_host=ip("192.168.1.2")); S.send(a, t, d); S.settle()
+        st = S.g._agent_states[a]
+        from AIDojoCoordinator.game_components import IP as _IP
+        svcs = sorted(st.known_services.get(_IP("192.168.1.2"), []), key=lambda x: x.name)
+        for sv in svcs:
+            if S.g._episode_ends.get(a):
+                break
+            t, d = game_msg("ExploitService", source_host=ip("192.168.2.2"), target_host=ip("192.168.1.2"), target_service=svc(sv))
+            S.send(a, t, d); S.settle()
+        t, d = game_msg("FindData", source_host=ip("192.168.1.2"), target_host=ip("192.168.1.2")); S.send(a, t, d); S.settle()
+        order = [("User2", "Data2FromServer1"), ("User1", "DataFromServer1")]
+        for owner, did in order:
+            t, d = game_msg("ExfiltrateData", source_host=ip("192.168.1.2"), target_host=ip("213.47.23.195"),
+                            data={"owner": owner, "id": did, "size": 0, "type": ""})
+            S.send(a, t, d); S.settle()
+        _scan(S, a); S.settle()
+        _reset(S, a, True); S.settle()
+    elif k == 13:
+        # a Defender that reaches ITS OWN goal (an empty goal is satisfied at its first action) while no attacker succeeds:
+        # its reason and bonus are decided by the attackers' outcome only
+        cfg, draw = directed_config(rng, 2, 2)
+        cfg["coordinator"]["agents"]["Defender"]["goal"]["known_data"] = {}
+        cfg["coordinator"]["agents"]["Defender"].pop("max_steps", None)
+        S = CR.Session(cfg, draw=draw)
+        a, dd = ("10.2.13.1", 1), ("10.2.13.2", 2)
+        S.connect(a); S.connect(dd); S.settle()
+        order = [(a, "att", "Attacker"), (dd, "def", "Defender")]
+        for x, nm, role in (order if variant == 0 else order[::-1]):
+            _join(S, x, nm, role)
+        S.settle()
+        t, d = game_msg("FindData", source_host=ip("192.168.2.2"), target_host=ip("192.168.2.2"))
+        S.send(dd, t, d); S.settle()                                     # the defender's own goal is reached
+        _scan(S, a); S.settle(); _scan(S, a); S.settle()                 # the attacker runs out of steps
+        S.send(dd, t, d); S.settle()
+        _scan(S, a); S.settle()
+        _reset(S, a, False); _reset(S, dd, True); S.settle()
+    elif k == 12:
         # a finished and rewarded agent leaves; a new connection takes its place and plays to its end without a reset in between
         # (in the address-reuse twin of this session the newcomer comes from the departed agent's address)
         cfg, draw = directed_config(rng, 2, 2)
@@ -341,6 +416,12 @@ def directed(rng, k):
             t, d = game_msg("ScanNetwork", source_host=ip(src), target_network={"ip": n[0], "mask": n[1]})
             S.send(x, t, d)
         for episode in range(4):
+            if episode == 0:
+                # a block placed in the first episode must be gone (under every later labelling) after the reset
+                st0 = S.g._agent_states.get(ags[0])
+                own = sorted(str(h) for h in st0.controlled_hosts)
+                t, d = game_msg("BlockIP", source_host=ip(own[-1]), target_host=ip(own[-1]), blocked_host=ip(own[0]))
+                S.send(ags[0], t, d); S.settle()
             for _ in range(rng.choice([1, 3])):
                 for x in ags:
                     view_scan(x); S.settle()
